@@ -188,6 +188,7 @@ struct Interp {
 	int kend = -1;      // one past the last record to use (-1: all)
 	int nrec() const { return kend >= 0 ? std::min(kend, in.nops()) : in.nops(); }
 	int applied = 0, layout_changing = 0;
+	bool no_const = false;   // never choose the const value category (destinations of assignments must stay mutable)
 	bool null_root = false;  // the root owns no storage (data pointer may be null): the library asserts that a null pointer is never offset,
 	                         // so views of such roots are sliced/dropped at offset 0 only (array_ref.hpp sliced_aux_: "it is UB to offset a nullptr")
 
@@ -196,6 +197,7 @@ struct Interp {
 	// apply `f` to v with the chosen value category and continue; the const category is emitted only where it instantiates
 	template<bool ConstOK, class V, class F>
 	void apply(V& v, unsigned cat, Model& m2, char const* what, F&& f) {
+		if(no_const && cat % 3U == CAT_CONST) { cat = CAT_LVALUE; }
 		switch(cat % 3U) {
 			case CAT_RVALUE: if constexpr(!is_owning<std::remove_const_t<V>>::value) { ctx.desc << "&&"; auto&& w = f(std::move(v)); next(w, m2, what); return; } [[fallthrough]];
 			case CAT_CONST: if constexpr(ConstOK) { ctx.desc << "c&"; auto&& w = f(std::as_const(v)); next(w, m2, what); return; } [[fallthrough]];
